@@ -12,7 +12,12 @@ Public API (everything is deterministic, nothing is sampled)
 
 ``SHAPES``                      ordered dict  shape -> [(feature, values, requires|None), ...]; ``requires`` is a
                                 predicate over the whole assignment that must hold when the feature deviates
+                                Shapes: sel page in join fromsub scalar exists cte setop group text expr upsert
+                                insert update delete params orm ormload ormdml (ORM_SHAPES / DML_SHAPES name subsets)
 ``base(shape)``                 the base assignment (dict, in table order)
+``valid(shape, feats)``         does the assignment satisfy every requires-clause
+``NotConstructible``            raised by ``build`` / ``build_exec`` when SQLAlchemy's constructors refuse the
+                                assignment (ArgumentError / InvalidRequestError); ``family`` leaves such members out
 ``neighbours(shape, d)``        every assignment at Hamming distance <= d from the base,
                                 simplest first (distance 0, then 1, then 2 ...; inside one
                                 distance in feature-table / value order)
@@ -57,7 +62,6 @@ from __future__ import annotations
 import collections
 import itertools
 import json
-import os
 import warnings
 
 from sqlalchemy import and_
@@ -959,8 +963,8 @@ def _b_text(f):
 
 
 def _b_expr(f):
-    from sqlalchemy import case, cast, type_coerce, try_cast, extract, collate, distinct, null, literal_column, any_
-    from sqlalchemy import JSON, Date, nullslast
+    from sqlalchemy import case, cast, type_coerce, try_cast, extract, collate, distinct, literal_column, any_
+    from sqlalchemy import JSON, Date
 
     k = f["expr"]
     v, v2 = f["lit1"], f["lit2"]
@@ -1177,8 +1181,6 @@ def _b_params(f):
 
     val = [v, 0] if exp else v
     val2 = [f["val2"], 0] if exp else f["val2"]
-    stmt_vals = {}
-    inner_params = None
     if place == "outer":
         s = select(a.c.id, a.c.x).where(cmp_(a.c.x, bp()))
     elif place == "inner":
